@@ -22,6 +22,17 @@ type callCtx struct {
 	resTypes []types.Type
 }
 
+func (c *callCtx) typedArgs() []Term {
+	out := make([]Term, len(c.args))
+	for i, a := range c.args {
+		if i < len(c.argVals) {
+			a.T = c.argVals[i].Type()
+		}
+		out[i] = a
+	}
+	return out
+}
+
 func (c *callCtx) freshResults(hint string) {
 	c.res = nil
 	for i, t := range c.resTypes {
@@ -354,7 +365,7 @@ func (x *Exec) callInvoke(c *callCtx) {
 	recvT := c.common.Value.Type()
 	iname := typeKeyShort(recvT) + "." + m.Name()
 	c.fr.callCount["call:"+iname]++
-	x.atAsserts(c.fr, c.n, c.st, "call", []string{m.Name(), iname}, c.instr)
+	x.atAsserts(c.fr, c.n, c.st, "call", []string{m.Name(), iname}, c.instr, c.typedArgs()...)
 	if h, ok := specTable[iname]; ok {
 		if h(c) {
 			return
